@@ -112,6 +112,9 @@ def gen(rng, tier):
                 yield Case("byronaddr", [hx(seed), 0, 1], "byron-master-rounds-%d" % w)
         if len(got_rounds) == len(want_rounds):
             break
+    from harness.canon import kholaw_long_round_seeds
+    for t, s in kholaw_long_round_seeds(rng, (6, 9, 11) if tier == "quick" else (6, 9, 10, 11, 12, 13, 14), 12000 if tier == "quick" else 120000):
+        yield Case("kholawderive", ["kholaw", hx(s), nats([0x80000000, 1]), 2], "ledger-master-links-%d" % t)
     # directed: Shelley payment keys whose 32-byte encoding starts (or ends) with a zero byte
     for i in range(3 if tier == "quick" else 40):
         mem = [c.name for c in Cip1852Coins][i % len(Cip1852Coins)]
@@ -167,5 +170,43 @@ def relations(rng, tier, rpt):
                     kl = int.from_bytes(c.PrivateKey().Raw().ToBytes()[:32], "little")
                     if kl % 8 != 0:
                         rep("child kL is not a multiple of 8", "%s %s" % (kind, seed.hex()), hex(kl), "multiple of 8")
+    # one CardanoByronLegacy wallet asked for a sequence of (first, second) index pairs: every answer equals a fresh wallet's
+    from bip_utils import CardanoByronLegacy, Bip44, Bip44Coins, Bip32KeyData, Bip32ChainCode, AdaByronIcarusAddrEncoder
+
+    def obs(w, a, b):
+        return "%s %s %s" % (w.GetPrivateKey(a, b).Raw().ToHex(), w.GetPublicKey(a, b).RawCompressed().ToHex(), w.GetAddress(a, b))
+    for i in range(2 if tier == "quick" else 25):
+        seed = bytes(rng.randrange(256) for _ in range(32))
+        shared = CardanoByronLegacy.FromSeed(seed)
+        seq = [(0, 0), (5, 0), (0, 2), (5, 1), (2**31 - 1, 3), (0, 0), (1, 2**31 - 1), (0, 1), (5, 0)]
+        if i:
+            seq = [(rng.choice([0, 1, 5, 2**31 - 1]), rng.choice([0, 1, 2, 7])) for _ in range(9)]
+        for j, (a, b) in enumerate(seq):
+            n += 1
+            got, want = obs(shared, a, b), obs(CardanoByronLegacy.FromSeed(seed), a, b)
+            if got != want:
+                rep("CardanoByronLegacy: keys/address for (%d, %d) depend on the index pairs the same wallet object was asked before" % (a, b),
+                    "%s after %s" % (seed.hex(), seq[:j]), got, want)
+                break
+    # Byron (Icarus / Ledger) addresses embed a function of the chain code: hierarchy objects holding the SAME public key with different chain
+    # codes (a watch-only import with the default chain code, then the real one) each give the address of their own chain code
+    for i, coin in enumerate((Bip44Coins.CARDANO_BYRON_ICARUS, Bip44Coins.CARDANO_BYRON_LEDGER) * (1 if tier == "quick" else 6)):
+        seed = bytes(rng.randrange(256) for _ in range(32))
+        full = Bip44.FromSeed(seed, coin).DeriveDefaultPath()
+        pub = full.PublicKey().RawCompressed().ToBytes()
+        ccs = [bytes(32), full.PublicKey().ChainCode().ToBytes(), bytes(rng.randrange(256) for _ in range(32))]
+        if i % 2:
+            ccs.reverse()
+        for cc in ccs:
+            n += 1
+            o = Bip44.FromPublicKey(pub, coin, Bip32KeyData(chain_code=Bip32ChainCode(cc), depth=5))
+            got = o.PublicKey().ToAddress()
+            want = AdaByronIcarusAddrEncoder.EncodeKey(pub, chain_code=cc)
+            if got != want:
+                rep("Bip44[%s].FromPublicKey(key, chain code).PublicKey().ToAddress() differs from the Byron encoder on (key, that chain code)" % coin.name,
+                    "pub=%s chain codes in order %s, failing at %s" % (pub.hex(), [c.hex()[:8] for c in ccs], cc.hex()), got, want)
+                break
+        if full.PublicKey().ToAddress() != AdaByronIcarusAddrEncoder.EncodeKey(pub, chain_code=full.PublicKey().ChainCode().ToBytes()):
+            rep("Bip44[%s] from-seed address changes after other objects with the same public key were used" % coin.name, seed.hex(), full.PublicKey().ToAddress(), "encoder on (key, own chain code)")
     rpt.extra["impl_relation_checks"] = n
     return bad[:6]
